@@ -120,24 +120,6 @@ static QByteArray asciiBytes(int maxlen)
     return raw;
 }
 static void setB64Text(QDomElement &e, const QByteArray &raw) { QString t = QString::fromUtf8(raw.toBase64()); vp_dom_set_text(&e, &t); }
-// reference parse of a PLAIN message  [authzid] NUL authcid NUL passwd  (RFC 4616)
-struct PlainRef {
-    int nul = 0, p1 = -1, p2 = -1;
-    PlainRef(const QByteArray &raw) { for (int i = 0; i < 8; i++) if (i < raw.size() && raw.at(i) == 0) { if (nul == 0) p1 = i; else if (nul == 1) p2 = i; nul++; } }
-    bool wellFormed() const { return nul == 2; }
-    bool userIs(const QByteArray &raw, const QString &u) const
-    {
-        if (u.size() != p2 - p1 - 1) return false;
-        bool ok = true; for (int i = 0; i < 8; i++) if (i < u.size() && u.at(i).unicode() != (unsigned char)raw.at(p1 + 1 + i)) ok = false;
-        return ok;
-    }
-    bool passwordIs(const QByteArray &raw, const QString &pw) const
-    {
-        if (pw.size() != raw.size() - p2 - 1) return false;
-        bool ok = true; for (int i = 0; i < 8; i++) if (i < pw.size() && pw.at(i).unicode() != (unsigned char)raw.at(p2 + 1 + i)) ok = false;
-        return ok;
-    }
-};
 static void noAuthEffect(World &w, const char *msg)
 {
     vp_assert(w.count(SIG_ELEMENT) == 0 && w.count(SIG_CONNECTED) == 0 && eq(w.d->jid, w.jid0) && eq(w.d->resource, w.resource0), msg);
@@ -158,13 +140,16 @@ static void sasl_auth(bool sasl2)
     }
     setAttr(el, QStringLiteral("mechanism"), pick(TB_MECH, mech));
     w.q->handleStanza(el);
+    unsigned lvl = vp_case_u(4, 4);
+    if (lvl == 1) return;
     noAuthEffect(w, "C16 an <auth/> request alone never authenticates, binds or routes");
+    if (lvl == 2) return;
     const unsigned K_FAIL = sasl2 ? K_SASL2_FAILURE : K_SASL_FAILURE, K_CHAL = sasl2 ? K_SASL2_CHALLENGE : K_SASL_CHALLENGE;
     if (mech == M_PLAIN) {
-        PlainRef ref(raw);
-        if (ref.wellFormed()) {
+        const unsigned ref = vp_c16_plain_ref(&raw, &w.checker.user, &w.checker.password);   // RFC 4616 reference parse
+        if (ref & 1) {
             vp_assert(w.checker.nCheck == 1 && w.checker.nDigest == 0, "C16 PLAIN: the password checker is asked exactly once");
-            vp_assert(ref.userIs(raw, w.checker.user) && ref.passwordIs(raw, w.checker.password) && eq(w.checker.domain, w.domain), "C16 PLAIN: the checker is asked for exactly the user, password and domain presented");
+            vp_assert(ref == 7 && eq(w.checker.domain, w.domain), "C16 PLAIN: the checker is asked for exactly the user, password and domain presented");
             vp_assert(w.d->saslServer && eq(w.d->saslServer->username(), w.checker.user), "C16 PLAIN: the pending exchange remembers the user the checker was asked about");
             vp_assert(vp_c16_sent_n() == 0 && vp_c16_ndisconnect() == 0, "C16 PLAIN: no answer before the checker replies");
         } else {
